@@ -112,3 +112,24 @@ package xlsx
 //@   ensures all_recorded: !err && !(r.rels == old(r.rels) && r.sheetRels == old(r.sheetRels)) ==> forall k int :: {r.rels.Relationship[k]} 0 <= k && k < len(r.rels.Relationship) ==> has(r.sheetRels, r.rels.Relationship[k].ID)
 //@   loop 0:
 //@     invariant r.rels == entry(r.rels) && forall k int :: {r.rels.Relationship[k]} 0 <= k && k < $i ==> has(r.sheetRels, r.rels.Relationship[k].ID)
+
+// IndexToColumn (deductive part; the round trip with ColumnToIndex is a bounded stand-in, see /verif/bounded_checks.json):
+// terminates, a negative index has no name, every byte of a name is an upper-case letter, and the LAST letter is the
+// least significant bijective base-26 digit 'A' + index mod 26.
+//@ func IndexToColumn results (r)
+//@   property C17, C02
+//@   ensures negative_has_no_name: old(index) < 0 ==> len(r) == 0
+//@   ensures nonempty: old(index) >= 0 ==> len(r) >= 1
+//@   ensures upper_case_letters: forall k int :: {r[k]} 0 <= k && k < len(r) ==> 'A' <= r[k] && r[k] <= 'Z'
+//@   ensures last_letter_is_least_significant_digit: old(index) >= 0 ==> r[len(r)-1] == 'A' + mod(old(index), 26)
+//@   loop 0:
+//@     invariant index >= 0 && (len(result) == 0 ==> index == old(index) + 1) && (old(index) >= 0 && index == 0 ==> len(result) >= 1)
+//@     invariant forall k int :: {result[k]} 0 <= k && k < len(result) ==> 'A' <= result[k] && result[k] <= 'Z'
+//@     invariant len(result) >= 1 ==> result[len(result)-1] == 'A' + mod(old(index), 26)
+//@     decreases index
+
+// A range "A1:D10" is two cell references separated by exactly one colon; each corner is what ParseCellRef gives
+//@ func ParseRangeRef results (startCol, startRow, endCol, endRow, err)
+//@   property C17
+//@   ensures corners: !err ==> len(strings.Split(ref, ":")) == 2 && startCol == ParseCellRef(strings.Split(ref, ":")[0]) && startRow == ParseCellRef$1(strings.Split(ref, ":")[0]) && endCol == ParseCellRef(strings.Split(ref, ":")[1]) && endRow == ParseCellRef$1(strings.Split(ref, ":")[1])
+//@   ensures bad_corner_is_error: len(strings.Split(ref, ":")) != 2 || ParseCellRef$2(strings.Split(ref, ":")[0]) || ParseCellRef$2(strings.Split(ref, ":")[1]) ==> err
